@@ -15,13 +15,14 @@ LEVEL_TEXT = ("Theorems over all states, requests and backend answer tapes (henc
               "Every run re-checks the proofs, regenerates the handler summaries from the Go source and compares model and real server on generated histories.")
 LEVEL_NOTE = ("Trusted: Coq kernel + vm_compute; the hand model Server/{State,Msg,Handlers}.v is tied to the Go code by HandlerGen.v "
               "(guards, errnos, name checks, lookups, backend calls read from the syntax) and by the differential only. Sequential histories; "
-              "in-flight overlap is C05/C07. 'rejected requests make no backend call' needs that a bound fid holds a reference (C05's ledger), taken as a hypothesis.")
+              "in-flight overlap is C05/C07. The literal parts of Server/Summaries.v model_traces are a hand-reviewed transcript of the alpha-normalised "
+              "source traces (only the guard sequences are rendered from the model's guard table); a rename of a local variable does not change the tables. "
+              "The whole-request refinement C04_refines holds for every request kind under Inv2 (ledger, injective fid table, path-tree structure), proved for every history.")
 DESIGN_REF = "6/C04"
 ASSUMPTIONS = [
     "requests are handled one at a time (lock-step); overlapping requests are C05/C07",
     "B1: a successful Walk/WalkGetAttr/Create/Attach returns a File not returned before (the scripted backend does)",
     "B2: RenameAt never succeeds into the moved entry's own subtree (the generator never asks for it)",
-    "refs_pos (every bound fid's fidRef holds >= 1 reference) for the 'no backend call at all' clause; without it the theorem still excludes every call but Close",
 ]
 TRUSTED_BASE = [
     "Coq 8.16.1 kernel, vm_compute (cases evaluation, generated-table checks)",
@@ -50,9 +51,9 @@ def run(ctx):
         "evaluations": st["steps"],
         "distinct_nontrivial": distinct,
         "rule": "fixed boundary histories + generated histories (20-60 requests, two connections, small fid/name alphabet, fid re-use, clunked fids, "
-                "xattr read/write, Tauth, auth-fid attach, every request type, hostile names); distinct = distinct (request type, reply class, backend call shape) triples",
+                "xattr read/write, Tauth, auth-fid attach, every request type, hostile names); " + vsrv.DISTINCT_RULE,
         "correspondence": {"cases": st["steps"], "mismatches": nm, "property_failures": nf, "distribution": st},
-        "samples": [good[0]["steps"][2], good[-1]["steps"][-1]],
+        "samples": vsrv.samples(good),
     })
 
 
